@@ -28,7 +28,7 @@ PROP = {
         {"name": "lapack_syev", "src": "lapack.cpp", "flags": ["-O1", "-g", "-DLAPACK_PART=3"], "libs": LIBS, "env": ENV, "modes": ["x"], "driver": "mmdrv_lapack",
          "programs": {"quick": 8000, "thorough": 360000}},
     ],
-    "hooks": ["probe_geqrf_inner_stride", "probe_syev_compiles"],
+    "hooks": ["probe_geqrf_inner_stride", "probe_syev_compiles", "count_large_sizes"],
     "trusted_base": TRUSTED_COMMON + [
         "LAPACK contracts PotrfPost / GesvdPost (MultiModel/Lapack.lean): DPOTRF factors the selected triangle of the column-major matrix it is given, writes only that triangle, info = order of the first non-positive leading minor; DGESVD('A','A') returns U, s, VT with A = U diag(s) VT. DSYEV('V') returns in column k an eigenvector of the symmetric matrix read from the selected triangle for the eigenvalue w[k] (SyevPost). DGEQRF's contract (reflectors + tau) is not formalised: validated numerically",
         "link-time interposition of dpotrf_/dgeqrf_/dgesvd_/dsyev_ (dlsym RTLD_NEXT) shows exactly what the adaptor passes; reference LAPACK + OpenBLAS (single thread) as the executor",
@@ -40,7 +40,7 @@ PROP = {
         "syev: square n x n with unit inner or unit leading stride (anything else is assert(0)), w and work with unit stride, size(work) >= max(1, 3n-1) (asserted); info = 0 (non-convergence of DSYEV cannot be provoked)",
         "the orientation of the eigenvectors depends on the storage: rows of a view with unit inner stride, columns of one with unit leading stride; the const& overloads work on a row-major copy and always return rows (proved as coded, documented, not filed)",
     ],
-    "rule": ("programs = one routine call on generated views: potrf on n x n (n 1..8), row-major or transposed storage, contiguous or padded sub-block, either triangle, positive definite "
+    "rule": ("programs = one routine call on generated views (sizes 1..8 as a rule; in about 4% of the programs a size from {15,16,17,31,32,33,63,64,65,127,128,129,130,200,257}, rectangular routines with one large and one small dimension too, so that size-dependent code paths are crossed): potrf on n x n (n 1..8), row-major or transposed storage, contiguous or padded sub-block, either triangle, positive definite "
              "or with a chosen first non-positive leading minor; geqrf on p x q (1..8) row-major contiguous/padded with a padded tau; gesvd on p x q with padded UU, ss, VV; syev on n x n (1..8) in both storages, padded, both triangles, the five overloads (explicit workspace possibly larger than needed, automatic workspace, eigenvalues returned, const input); "
              "distinct = different program text; non-trivial = matrix order >= 2"),
     "level_text": "Theorems (all sizes, both triangles, both storage orientations, any leading dimension; real case over a commutative ring, under stated LAPACK contracts): potrf passes the character, order, pointer and leading dimension for which LAPACK's column-major matrix is the logical view (stride(A)==1 branch, flipped filling) or its transpose (row-major branch), so the selected LOGICAL triangle of the leading r x r block (r = n or info-1) holds T with T^T T = A resp. T T^T = A and only that triangle of the view is written; geqrf's and gesvd's arguments denote the transpose of the logical view element by element, and the three gesvd outputs satisfy AA = UU diag(ss) VV in the views' own index spaces; syev's two branches read the logical triangle and, under DSYEV's contract, leave in row k (unit inner stride) resp. column k (unit leading stride) of the view an eigenvector of the logical symmetric matrix for w[k]; its workspace, returned block and convenience overloads are as asserted. The model is tied to /repo by interposed capture of the real Fortran calls; reconstruction residuals, triangle-only writes and guard cells are checked numerically.",
@@ -158,8 +158,44 @@ def reproduce_finding(f, ctx):
 def _observable(lines):
     """everything but the interposed LAPACK call lines (the arguments the adaptor passes are how the model is tied to the code; the
     property is about what comes out: outcome, order, returned block, reconstruction, frame)"""
-    return [l for l in lines if l.split(" ", 1)[0] not in ("potrf", "geqrf", "gesvd")]
+    return [l for l in lines if l.split(" ", 1)[0] not in ("potrf", "geqrf", "gesvd", "syev", "unexpected")]
 
 
 def property_fails(impl_lines, model_lines):
     return _observable(impl_lines) != _observable(model_lines)
+
+
+def count_large_sizes(ctx):
+    """how many calls with a dimension >= 15 (sizes around powers of two up to 257) the run made, per routine; a run that no longer
+    leaves the small sizes cannot see a size-dependent code path (a seeded n > 128 shortcut in syev was once missed for that reason)"""
+    import glob, os
+    counts, ge129 = {}, {}
+    for f in glob.glob(os.path.join(ctx["build"], "impl.lapack_*.out")):
+        for l in open(f, errors="replace"):
+            w = l.split()
+            if not w:
+                continue
+            try:
+                if w[0] == "potrf":
+                    n = int(w[2])
+                elif w[0] == "geqrf" and w[-1] == "compute":
+                    n = max(int(w[1]), int(w[2]))
+                elif w[0] == "gesvd" and w[-1] == "compute":
+                    n = max(int(w[3]), int(w[4]))
+                elif w[0] == "syev":
+                    n = int(w[3])
+                else:
+                    continue
+            except (ValueError, IndexError):
+                continue
+            if n >= 15:
+                counts[w[0]] = counts.get(w[0], 0) + 1
+            if n >= 129:
+                ge129[w[0]] = ge129.get(w[0], 0) + 1
+    stats = {"calls_with_a_dimension_ge_15": counts, "calls_with_a_dimension_ge_129": ge129}
+    floor = 20
+    missing = [r for r in ("potrf", "geqrf", "gesvd", "syev") if counts.get(r, 0) < floor or ge129.get(r, 0) < 3]
+    if missing:
+        return {"violations": [{"key": "C14:generator:large-sizes-not-reached", "what": f"fewer than {floor} calls with a dimension >= 15 (or fewer than 3 with >= 129) for {missing}: size-dependent code paths are not exercised"}],
+                "stats": stats, "obligations": 1, "discharged": 0}
+    return {"violations": [], "stats": stats, "obligations": 1, "discharged": 1}
